@@ -78,7 +78,9 @@ Fixpoint jv_eqb (a b : jv) : bool :=
   end.
 
 (** * Configurations *)
-Inductive proto := PJson | PYaml | PMsgpack.
+(** [PMsgpackRpc] is MessagePackRpc: MessagePackDocument's codec, with arrays unpacked as
+    tuples (use_list=False) and the msgpack-rpc envelope *)
+Inductive proto := PJson | PYaml | PMsgpack | PMsgpackRpc.
 
 Record cfg := mkcfg {
   c_proto : proto;
@@ -90,7 +92,7 @@ Record cfg := mkcfg {
 
 (** key_encoding: None for Json/Yaml, 'utf8' for MessagePack *)
 Definition key_bytes (c : cfg) : bool :=
-  match c_proto c with PMsgpack => true | _ => false end.
+  match c_proto c with PMsgpack | PMsgpackRpc => true | _ => false end.
 
 (** * Type universe with the primitives the dict protocols distinguish *)
 Inductive lkind :=
@@ -245,10 +247,12 @@ Definition in_true_false (j : jv) : option Z :=
   | _ => None
   end.
 
-(** json.py / yaml.py / msgpack.py [_ret_number] *)
-Definition ret_number (j : jv) : out dval :=
+(** json.py / yaml.py / msgpack.py [_ret_number]: NON_NUMBER_TYPES is (list, dict, str, bytes);
+    a MessagePackRpc array is a tuple, which is not among them *)
+Definition ret_number (tuples : bool) (j : jv) : out dval :=
   match j with
-  | JList _ | JMap _ | JStr _ | JBytes _ => VFault
+  | JMap _ | JStr _ | JBytes _ => VFault
+  | JList _ => if tuples then Ok (nat_of_doc j) else VFault
   | _ => match in_true_false j with
          | Some z => Ok (DLeaf (LInt z))     (* int(value) *)
          | None => Ok (nat_of_doc j)
@@ -286,7 +290,8 @@ Definition decimal_from_text (msl : ext) (s : text) : out dval :=
 Section Leaf.
   Variable c : cfg.
 
-  Definition is_msgpack : bool := match c_proto c with PMsgpack => true | _ => false end.
+  Definition is_msgpack : bool := match c_proto c with PMsgpack | PMsgpackRpc => true | _ => false end.
+  Definition is_rpc : bool := match c_proto c with PMsgpackRpc => true | _ => false end.
 
   (** ** to_serstr(cls, value[, binary_encoding]) for a value of the declared kind;
       a value of another kind is outside the modelled region ([Crash OtherExn]) *)
@@ -379,9 +384,9 @@ Section Leaf.
                             else if negb (ext_leb (Fin (len b)) msl) then VFault else VFault
               | _ => Ok (nat_of_doc j)
               end
-            else ret_number j
+            else ret_number is_rpc j
         end
-    | KDouble => match j with JNull => Ok DNone | _ => ret_number j end
+    | KDouble => match j with JNull => Ok DNone | _ => ret_number is_rpc j end
     | KBool => ret_bool j
     | KDecimal msl =>
         match j with
@@ -814,11 +819,20 @@ Section Envelope.
     | None => tdv c U' fuel (DRef (out_cid U)) (DObj (out_cid U) rets)
     end.
 
-  (** MessagePackRpc (ignore_wrappers=True): [0, msgid, name, params] ->
-      [1, 0, None, out_message as document] *)
-  Definition rpc_request (sigs : list dsig) (req : jv) : sres :=
-    match req with
-    | JList [JInt 0; _; name; params] =>
+  (** MessagePackRpc (ignore_wrappers=True): [0, msgid, name, params] (params may be left
+      out) -> [1, 0, None, out_message as document].  The envelope is any sequence of three
+      or four items; the type is compared with ==. *)
+  Definition num_of (j : jv) : option Z :=
+    match j with
+    | JInt z => Some z
+    | JBool b => Some (if b then 1 else 0)
+    | JFlt x => match float_class x with FIntegral z => Some z | _ => None end
+    | _ => None
+    end.
+
+  Definition rpc_go (sigs : list dsig) (t name params : jv) : sres :=
+    match num_of t with
+    | Some 0 =>
         match (match name with
                | JStr s => Some s
                | JBytes b => utf8_dec b
@@ -831,6 +845,15 @@ Section Envelope.
             | Some s => args_of s (d2o c (ext_universe U s) fuel (DRef (in_cid U)) params)
             end
         end
+    | Some 1 => SCrash AssertionError      (* assert message == RESPONSE *)
+    | Some 2 => SCrash OtherExn            (* NotImplementedError *)
+    | _ => SInvalid                        (* MessagePackDecodeError (a Client fault) *)
+    end.
+
+  Definition rpc_request (sigs : list dsig) (req : jv) : sres :=
+    match iter_doc req with
+    | Some [t; _; name] => rpc_go sigs t name (JList [])
+    | Some [t; _; name; params] => rpc_go sigs t name params
     | _ => SInvalid
     end.
 
